@@ -11,6 +11,7 @@ import (
 	"crypto/ecdsa"
 	"crypto/sha256"
 	"encoding/base64"
+	"encoding/hex"
 	"encoding/json"
 	"encoding/pem"
 	"fmt"
@@ -1339,6 +1340,125 @@ func run20(r *mon.Run) {
 		os.Remove(cp)
 		os.Remove(out)
 	}
+	// ---- (G) signature-content sweep: the same tiny bundle and the same tiny exchange signed over and over. ECDSA
+	// signatures are randomised, so every run yields fresh (r, s): what varies is the content of computed values (a
+	// leading zero octet or a set high bit in r or s, the DER length octets, the base64 text of the signature) - shapes
+	// that occur once in a few hundred signatures and that no choice of input can force.
+	nSig := 640
+	if r.Thorough {
+		nSig = 8000
+	}
+	{
+		root := filepath.Join(scratch, "sigsweep")
+		os.MkdirAll(root, 0o755)
+		os.WriteFile(filepath.Join(root, "a.txt"), []byte("signature sweep"), 0o644)
+		tiny := filepath.Join(scratch, "sigsweep.wbn")
+		var tinyParsed *rbundle.Parsed
+		if res := tool("gen-bundle", nil, "-dir", root, "-baseURL", "https://example.com/", "-version", "b2", "-o", tiny); res.rc == 0 {
+			tb, _ := os.ReadFile(tiny)
+			tinyParsed, _ = rbundle.Extract(tb)
+		}
+		cp := filepath.Join(scratch, "sigsweep.bin")
+		os.WriteFile(cp, []byte("signature sweep"), 0o644)
+		shapes := map[string]int{}
+		for k := 0; k < nSig && tinyParsed != nil; k++ {
+			if !r.Mine(k) {
+				continue
+			}
+			m := ec256
+			if k%2 == 1 {
+				m = ec384
+			}
+			kf := m.keys[0]
+			key := fmt.Sprintf("sigsweep:%d", k)
+			det := map[string]any{"case": k, "curve": m.key.Curve.Params().BitSize, "key_form": kf.form}
+			outcome := "sigsweep:ok"
+			if k%4 < 2 {
+				signed := filepath.Join(scratch, "sigsweep.signed.wbn")
+				sres := tool("sign-bundle", passEnv, "signatures-section", "-i", tiny, "-o", signed, "-certificate", certCBOR[m], "-privateKey", kf.path, "-validityUrl", "https://example.com/validity", "-expire", "24h")
+				if sres.rc != 0 {
+					outcome = "sigsweep:SIGN-FAILED"
+					violation(key+":sign", "sign-bundle signatures-section failed on a bundle it signs in other runs (repeat "+fmt.Sprint(k)+"): "+tail(sres.out), det)
+				} else {
+					sb, _ := os.ReadFile(signed)
+					det["signed_bundle"] = hex.EncodeToString(sb)
+					orig := map[string][]byte{}
+					for _, ex := range tinyParsed.Exchanges {
+						orig[ex.URL] = ex.Body
+					}
+					if bad := verifySignedBundle(sb, orig, "example.com", m.certs[0].Raw, &m.key.PublicKey, "b2", 0, 86400); bad != "" {
+						outcome = "sigsweep:DOES-NOT-VERIFY"
+						violation(key+":verify", "bundle signed by sign-bundle signatures-section does not verify: "+bad, det)
+					}
+					if d := tool("dump-bundle", nil, "-i", signed); d.rc != 0 {
+						outcome = "sigsweep:DUMP-REJECTS"
+						violation(key+":dump", "dump-bundle rejects a bundle signed by sign-bundle signatures-section: "+tail(d.out), det)
+					}
+					if p, e := rbundle.Extract(sb); e == nil && p.Signatures != nil && len(p.Signatures.Vouched) > 0 {
+						shapes[sigShape(p.Signatures.Vouched[len(p.Signatures.Vouched)-1].Sig)]++
+					}
+				}
+				os.Remove(signed)
+			} else {
+				out := filepath.Join(scratch, "sigsweep.sxg")
+				ver := []string{"1b3", "1b2", "1b1"}[(k/4)%3]
+				gres := tool("gen-signedexchange", passEnv, "-uri", "https://example.com/a.txt", "-version", ver, "-content", cp, "-certificate", m.certPEM, "-certUrl", "https://example.com/cert.cbor",
+					"-validityUrl", "https://example.com/resource.validity", "-privateKey", kf.path, "-expire", "24h", "-o", out, "-responseHeader", "cache-control: max-age=100")
+				if gres.rc != 0 {
+					outcome = "sigsweep:GEN-FAILED"
+					violation(key+":gen", "gen-signedexchange failed on an exchange it signs in other runs (repeat "+fmt.Sprint(k)+"): "+tail(gres.out), det)
+				} else {
+					fb, _ := os.ReadFile(out)
+					det["exchange"] = hex.EncodeToString(fb)
+					if d := tool("dump-signedexchange", nil, "-i", out, "-cert", certCBOR[m], "-verify"); d.rc != 0 {
+						outcome = "sigsweep:DUMP-REJECTS"
+						violation(key+":dump-verify", "dump-signedexchange -verify rejects gen-signedexchange's output ("+ver+"): "+tail(d.out), det)
+					}
+					if _, _, sigH, _, _, perr := rsxg.ParseFile(fb); perr == nil {
+						if i := strings.Index(sigH, "sig=*"); i >= 0 {
+							if j := strings.IndexByte(sigH[i+5:], '*'); j >= 0 {
+								if raw, e := base64.StdEncoding.DecodeString(sigH[i+5 : i+5+j]); e == nil {
+									shapes[sigShape(raw)]++
+								}
+							}
+						}
+					}
+				}
+				os.Remove(out)
+			}
+			r.Eval(outcome)
+		}
+		for sh := range shapes {
+			r.Distinct("sigsweep|" + sh)
+			r.NoteAppend("signature_shapes_observed", sh)
+		}
+	}
 	r.Note("tool_invocations", invocations)
 	r.Note("signed_lifetime_differs_from_expire_flag(not judged)", lifetimeDeviations)
+}
+
+// sigShape classifies an ASN.1 Ecdsa-Sig-Value by what varies from signature to signature: total length and, for r and
+// s, the INTEGER's length relative to the field size together with a padding octet (high bit set) or leading zero octets.
+func sigShape(der []byte) string {
+	if len(der) < 8 || der[0] != 0x30 {
+		return "unparsed"
+	}
+	i := 2
+	if der[1]&0x80 != 0 {
+		i = 2 + int(der[1]&0x7f)
+	}
+	out := fmt.Sprintf("len%d", len(der))
+	for k := 0; k < 2 && i+2 <= len(der); k++ {
+		if der[i] != 0x02 {
+			return out + "/unparsed"
+		}
+		n := int(der[i+1])
+		pad := i+2 < len(der) && der[i+2] == 0
+		out += fmt.Sprintf("/int%d", n)
+		if pad {
+			out += "p"
+		}
+		i += 2 + n
+	}
+	return out
 }
